@@ -45,6 +45,7 @@ type profile struct {
 	shardKeys     bool // address keys by LRU shard (small caches: makes evictions replayable)
 	shards        int  // how many shards the keys are spread over (0 => 4)
 	varLen        bool // URIs of many lengths
+	twins         bool // every key gets a twin of the other method (GET/HEAD) on the same host and URI
 }
 
 // hosts that differ in case, a trailing dot, a port, or a trailing run of digits
@@ -77,6 +78,13 @@ func genKeys(t *rapid.T, p *profile) []Key {
 			k.Shard = &sh
 		}
 		keys = append(keys, k)
+		if p.twins {
+			tw := k
+			tw.Method = map[string]string{"GET": "HEAD", "HEAD": "GET"}[k.Method]
+			if tw.Method != "" {
+				keys = append(keys, tw)
+			}
+		}
 	}
 	return keys
 }
@@ -623,7 +631,7 @@ func TestC03Histories(t *testing.T) {
 
 func TestC04(t *testing.T) {
 	installWedge(t, "C04")
-	p := &profile{prop: "C04", minKeys: 1, maxKeys: 1, methods: []string{"GET", "GET", "GET", "HEAD"}, reloadW: 3,
+	p := &profile{prop: "C04", minKeys: 1, maxKeys: 1, methods: []string{"GET", "GET", "GET", "HEAD"}, reloadW: 3, twins: true,
 		stores: []string{"", "", "mem", "lazy"}, cacheSizes: []int{1000, 1000, 100, 1001, 2000}, hfps: []int{0, 1}, proxyTimeouts: []int{0},
 		lifetimes: []int{1, 2, 3, 4, 5, 6, 7, 8, 9, 10, 60, 3600, 31536000}, outcomes: []string{"cacheable", "cacheable", "cacheable", "cacheable", "cacheable", "uncacheable"},
 		parkPct: 5, w: [6]int{40, 25, 30, 3, 0, 0}, minOps: 6, maxOps: 50,
